@@ -38,8 +38,8 @@ CLAIMED = {
                 text="Locality through its mechanisms: scanners stop at the first non-blank when pausing (complete tables), every seam formatter calls them pausing, every returned endpoint is seam / pausing-scan result (+1), dedent ranges are clamped per line. Decides these clauses, not verbatim survival of every stretch.", ref="5 C02/C14"),
     "C15": dict(cat="other", tech="static analysis: sibling agreement on abstract-interpretation normal forms of the three entry points + effect reachability over the resolved call graph",
                 text="list and clean obtain regions from the same pure function on identically built inputs (normal forms of clean/list/list_all share tokenize/parse/build_remover; Remover::remove deletes exactly build_remove_marker's ranges; list renders all of them tagged Ready) and nothing reachable from the entry points is effectful, static-state dependent or iterates a hash container. Line numbers and highlighted text are not decided.", ref="5 C15"),
-    "C16": dict(cat="other", tech="static analysis: type/derive-expansion query for the JSON schema (keys read off the generated serialize body) + non-interference (taint) query for the colour flag + byte-0 path rule + structural rules on the assembly of an item (frame order, contiguous slice chain with interpreted line bounds, numbering, tab counter)",
-                text="JSON shape fixed by types and the generated serialiser (keys line_range, annotated_code_block, current_status; Ready/Pending), both formats rendered from the same marker list with Some(line map); the colour flag only selects SGR constants that flow only into push_str/capacity; backward scanner examines byte 0; tabs of the code block are expanded unconditionally; nothing rewrites or re-splits listed text; the frame is padding* `_start` line-break block padding* `‾end` with each padding from its own marker's line; the shown text is a contiguous chain of content slices from the first line's start to the last line's end with the region highlighted, numbered first..=last; line range = (line of first byte, line of last byte); the tab counter counts tabs. Widths of padding and of the number column are not decided.", ref="5 C16"),
+    "C16": dict(cat="other", tech="static analysis: type/derive-expansion query for the JSON schema (keys read off the generated serialize body) + non-interference (taint) query for the colour flag + byte-0 path rule + structural rules on the assembly of an item (frame order, contiguous slice chain with interpreted line bounds, numbering, tab counter) + linear-form equality of the marker padding and the number-column width",
+                text="JSON shape fixed by types and the generated serialiser (keys line_range, annotated_code_block, current_status; Ready/Pending), both formats rendered from the same marker list with Some(line map); the colour flag only selects SGR constants that flow only into push_str/capacity; backward scanner examines byte 0; tabs of the code block are expanded unconditionally; nothing rewrites or re-splits listed text; the frame is padding* `_start` line-break block padding* `‾end` with each padding from its own marker's line; the shown text is a contiguous chain of content slices from the first line's start to the last line's end with the region highlighted, numbered first..=last; line range = (line of first byte, line of last byte); the tab counter counts tabs. the padding in front of each marker adds up (linear form, local definitions read through) to offset + (position - line start) + 3 x tabs, the offset being 0 without line numbers and the width of the number column read off its format string otherwise. Not decided: line numbers wider than the column, a tab as the last removed character.", ref="5 C16"),
     "C17": dict(cat="other", tech="static analysis: decision table of the pending/ready gating + loop-shape query on the pending/ready merge + ordering enumeration of the squash test",
                 text="Clauses only: complete gating table (pending push exactly when not skip & registered & not verdict & collect_pending & built & non-empty; skip/unregistered/cannot-unwrap in neither list; ready list independent of the flag) and merge exhaustiveness (the pending cursor advances only inside an inner loop, each ready range pushed once unconditionally, pending tail appended), and on all endpoint orderings of one merge step: a pending range is omitted exactly when it lies wholly inside the ready range, listed as itself with status Pending, and taken up in front of a ready range exactly when it begins before that range ends. Order for partially overlapping ranges (which nested elements cannot produce) is not decided.", ref="5 C17"),
     "C18": dict(cat="other", tech="static analysis: literal / constant queries + use-classification of the delimiter parameters + registry wiring + strip-once query",
